@@ -55,7 +55,13 @@ pub fn gen_crash(property: &str, profile: &str, seed: u64) -> Plan {
     for _ in 0..sw.rng.range(2, 8) {
         ops1.push(gen_op(&mut sw, &MIX_AFTER, plan.store.key_len));
     }
+    // sometimes the recovery session opens lazily and does nothing at all (a directory that holds
+    // only quarantined files is then met by the next start)
+    if sw.rng.chance(1, 8) {
+        ops1.clear();
+    }
     let mut s1 = SessionPlan::sequential(ops1);
+    s1.lazy_init = sw.rng.chance(1, 4);
     if sw.rng.chance(1, 3) {
         s1.validate_data = Some(!plan.store.validate_data);
     }
